@@ -1528,7 +1528,13 @@ def _encode_host(host: str, validate_host: bool) -> str:
         else:
             # These checks should not happen in the
             # LRU to keep the cache size small
-            if sep and validate_host and (bad := NOT_REG_NAME.search(zone.lower())):
+            if (
+                sep
+                and validate_host
+                # only an ASCII zone id may be lower-cased for the test: the
+                # lower case of U+212A KELVIN SIGN is the ASCII letter "k"
+                and (bad := NOT_REG_NAME.search(zone.lower() if zone.isascii() else zone))
+            ):
                 # the zone id ends up in the netloc verbatim: a delimiter in it
                 # would change how the authority splits
                 raise ValueError(
